@@ -73,10 +73,356 @@ struct Case {
     points: Vec<Histogram>,
     kmeans: Vec<Histogram>,
     tag: String,
+    vdist: bool,
 }
 
 fn layer_of(c: &Case) -> Layer {
     Layer::verif_new(c.street, Metric::from(c.metric_raw.clone()), c.points.clone(), c.kmeans.clone())
+}
+
+/// exact 1-D Wasserstein distance on the 0..100 grid times 100/101, in f64, from the raw counts
+fn w1_scaled(x: &Histogram, y: &Histogram) -> f64 {
+    let pdf = |h: &Histogram| -> Vec<f64> {
+        let m = h.verif_mass() as f64;
+        let mut v = vec![0f64; 101];
+        for (a, c) in h.verif_counts() { v[a.index()] += c as f64 / m; }
+        v
+    };
+    let (p, q) = (pdf(x), pdf(y));
+    let (mut fx, mut fy, mut w) = (0f64, 0f64, 0f64);
+    for i in 0..100 { fx += p[i]; fy += q[i]; w += (fx - fy).abs(); }
+    w / 101.0
+}
+
+/// every check of one layer: neighborhoods, next, lookup, metric. returns the real next() centroids
+fn exercise(run: &mut Run, case: &Case, layer: &Layer) -> Option<Vec<Histogram>> {
+    let (n, kc) = (case.points.len(), case.kmeans.len());
+    let k_alloc = case.street.k();
+    run.count(&format!("layer:{}", case.tag.split("-run").next().unwrap()));
+    run.count(&format!("points={}", match n { 0..=29 => "10-29", 30..=99 => "30-99", 100..=249 => "100-249", _ => "250-500" }));
+    run.count(&format!("centroids={}", match kc { 1 => "1", 2 => "2", 3..=16 => "3-16", 17..=143 => "17-143", _ => "144+" }));
+    // ---- the real distances (hook verif_emd): rows[i][j] = emd(point i, centroid j)
+    let rows: Option<Vec<Vec<f32>>> = catch(AssertUnwindSafe(|| {
+        case.points.iter().map(|p| case.kmeans.iter().map(|c| layer.verif_emd(p, c)).collect()).collect()
+    }));
+    let rows = match rows {
+        Some(r) => r,
+        None => {
+            run.notes.push(format!("layer {} skipped: emd itself panics", case.tag));
+            return None;
+        }
+    };
+    run.evaluations += (n * kc) as u64;
+    // ---- independent distances, from scratch in f64 (equity layers): W1 on the grid * 100/101
+    let d64: Option<Vec<Vec<f64>>> = if case.street == Street::Turn && case.kmeans.iter().all(|c| c.verif_mass() > 0) {
+        Some(case.points.iter().map(|p| case.kmeans.iter().map(|c| w1_scaled(p, c)).collect()).collect())
+    } else {
+        None
+    };
+    if let Some(d64) = &d64 {
+        for i in 0..n {
+            for j in 0..kc {
+                run.spec_checked += 1;
+                if (rows[i][j] as f64 - d64[i][j]).abs() > 2e-6 + 1e-5 * d64[i][j] {
+                    run.fail("emd-to-centroid-wrong", &format!("{} point {i} ({}) centroid {j} ({})", case.tag, hist_str(&case.points[i]), hist_str(&case.kmeans[j])),
+                        &format!("W1*100/101 = {}", d64[i][j]), &format!("{}", rows[i][j]));
+                }
+            }
+        }
+        if case.vdist {
+            for i in 0..n {
+                for j in 0..kc {
+                    run.line(&format!("vdist {} {}", hist_str(&case.points[i]), hist_str(&case.kmeans[j])), &fl(rows[i][j]));
+                }
+            }
+        }
+    }
+    // ---- neighborhood, point by point
+    let mut nbrs: Vec<Option<(usize, f32)>> = vec![];
+    for (i, p) in case.points.iter().enumerate() {
+        let got = catch(AssertUnwindSafe(|| layer.verif_neighborhood(p)));
+        let mut op = format!("nbr {kc}");
+        for d in &rows[i] { let _ = write!(op, " {}", d.to_bits()); }
+        let ans = match got { Some((k, d)) => format!("{k} {}", fl(d)), None => "panic".into() };
+        run.line(&op, &ans);
+        run.distinct(&op);
+        // oracle: first index attaining the minimum; NaN among >= 2 distances => failure outcome
+        run.spec_checked += 1;
+        let has_nan = rows[i].iter().any(|d| d.is_nan());
+        if has_nan && kc >= 2 {
+            if got.is_some() {
+                run.fail("neighborhood-nan-not-rejected", &op, "panic (unordered distances)", &ans);
+            }
+        } else {
+            let mn = rows[i].iter().cloned().fold(f32::INFINITY, f32::min);
+            let first = rows[i].iter().position(|d| *d == mn || (kc == 1));
+            match (got, first) {
+                (Some((k, d)), Some(f)) => {
+                    if k != f || (d.to_bits() != rows[i][f].to_bits() && !(d.is_nan() && rows[i][f].is_nan())) {
+                        run.fail("neighborhood-not-first-nearest", &format!("{} point {i}: distances {:?}", case.tag, rows[i]), &format!("index {f} at {}", rows[i][f]), &ans);
+                    }
+                }
+                _ => run.fail("neighborhood-panics", &op, "an index", &ans),
+            }
+        }
+        if let (Some(d64), Some((k, _))) = (&d64, got) {
+            // nearest-centroid clause against the independent distances
+            run.spec_checked += 1;
+            let least = d64[i].iter().cloned().fold(f64::INFINITY, f64::min);
+            let best = d64[i].iter().position(|d| *d == least).unwrap();
+            if k >= kc || d64[i][k] > least + 1e-5 {
+                run.fail("neighborhood-not-nearest-centroid", &format!("{} point {i} ({}): independent distances {:?}", case.tag, hist_str(p), d64[i]),
+                    &format!("centroid {best} at {least}"), &format!("centroid {k} at {}", d64[i].get(k).copied().unwrap_or(f64::NAN)));
+            }
+        }
+        nbrs.push(got);
+    }
+    // ---- next
+    let real_next = catch(AssertUnwindSafe(|| layer.verif_next()));
+    let mut op = format!("next {} {kc} {n}", street_no(case.street));
+    for (i, p) in case.points.iter().enumerate() {
+        let _ = write!(op, " {}", hist_str(p));
+        for d in &rows[i] { let _ = write!(op, " {}", d.to_bits()); }
+    }
+    let ans = match &real_next {
+        None => "panic".to_string(),
+        Some(cs) => { let mut s = format!("ok {}", cs.len()); for c in cs { s.push_str(&hist_ans(c)); } s }
+    };
+    run.line(&op, &ans);
+    run.distinct(&op);
+    run.evaluations += 1;
+    run.spec_checked += 1;
+    let all_ok = nbrs.iter().all(|x| x.is_some());
+    let in_range = nbrs.iter().all(|x| x.map_or(true, |(k, _)| k < k_alloc));
+    match &real_next {
+        None => {
+            if all_ok && in_range {
+                run.fail("next-panics", &format!("{} n={n} k={kc}", case.tag), "centroids", "panic");
+            }
+        }
+        Some(cs) => {
+            if !all_ok || !in_range {
+                run.fail("next-accepts-failed-assignment", &format!("{} n={n} k={kc}", case.tag), "panic", "centroids");
+            } else {
+                // expected: centroid j = exact union of the points whose first-nearest centroid is j
+                let mut want: Vec<(usize, BTreeMap<Abstraction, usize>)> = vec![(0, BTreeMap::new()); k_alloc];
+                for (i, p) in case.points.iter().enumerate() {
+                    let mn = rows[i].iter().cloned().fold(f32::INFINITY, f32::min);
+                    let f = rows[i].iter().position(|d| *d == mn || kc == 1).unwrap();
+                    want[f].0 += p.verif_mass();
+                    for (a, c) in p.verif_counts() { *want[f].1.entry(a).or_default() += c; }
+                }
+                let total: usize = cs.iter().map(|c| c.verif_mass()).sum();
+                let total_pts: usize = case.points.iter().map(|p| p.verif_mass()).sum();
+                if cs.len() != k_alloc {
+                    run.fail("next-centroid-count", &case.tag, &format!("{k_alloc}"), &format!("{}", cs.len()));
+                }
+                if total != total_pts {
+                    run.fail("next-mass-not-conserved", &case.tag, &format!("{total_pts}"), &format!("{total}"));
+                }
+                for (j, c) in cs.iter().enumerate() {
+                    let got: BTreeMap<Abstraction, usize> = c.verif_counts().into_iter().collect();
+                    if c.verif_mass() != want[j].0 || got != want[j].1 {
+                        run.fail("next-centroid-not-union-of-nearest-points", &format!("{} centroid {j}", case.tag), &format!("mass {}", want[j].0), &format!("mass {}", c.verif_mass()));
+                    }
+                    let s: usize = got.values().sum();
+                    if s != c.verif_mass() {
+                        run.fail("next-mass-not-sum-of-counts", &format!("{} centroid {j}", case.tag), &format!("{s}"), &format!("{}", c.verif_mass()));
+                    }
+                }
+            }
+        }
+    }
+    // ---- lookup (Flop / Turn branch of Layer::lookup)
+    if case.street == Street::Flop || case.street == Street::Turn {
+        let real = catch(AssertUnwindSafe(|| BTreeMap::<Isomorphism, Abstraction>::from(layer.verif_lookup())));
+        let isos: Vec<Isomorphism> = IsomorphismIterator::from(case.street).take(n).collect();
+        let mut op = format!("lookup {} {kc} {n}", street_no(case.street));
+        for r in &rows { for d in r { let _ = write!(op, " {}", d.to_bits()); } }
+        let ans = match &real {
+            None => "panic".to_string(),
+            Some(map) => {
+                let mut s = String::from("ok");
+                for iso in &isos {
+                    match map.get(iso) { Some(ab) => { let _ = write!(s, " {}", code(ab)); } None => s.push_str(" missing") }
+                }
+                s
+            }
+        };
+        run.line(&op, &ans);
+        run.evaluations += 1;
+        run.spec_checked += 1;
+        match &real {
+            None => if all_ok { run.fail("lookup-panics", &case.tag, "a table", "panic"); },
+            Some(map) => {
+                if !all_ok {
+                    run.fail("lookup-accepts-failed-assignment", &case.tag, "panic", "a table");
+                } else {
+                    if map.len() != n {
+                        run.fail("lookup-size", &case.tag, &format!("{n} classes"), &format!("{}", map.len()));
+                    }
+                    for (i, iso) in isos.iter().enumerate() {
+                        let mn = rows[i].iter().cloned().fold(f32::INFINITY, f32::min);
+                        let f = rows[i].iter().position(|d| *d == mn || kc == 1).unwrap();
+                        let want = Abstraction::from((case.street, f));
+                        if map.get(iso) != Some(&want) {
+                            run.fail("lookup-not-nearest-centroid-of-ith-point", &format!("{} class {i} ({})", case.tag, iso.0), &format!("{want}"), &format!("{:?}", map.get(iso)));
+                        }
+                    }
+                }
+            }
+        }
+        run.count("lookup");
+    }
+    // ---- derived metric over the centroids
+    let nonempty = case.kmeans.iter().all(|h| h.verif_mass() > 0);
+    let affordable = case.street == Street::Turn || kc <= 16;
+    if nonempty && affordable && kc <= k_alloc {
+        let emds: Option<Vec<Vec<f32>>> = catch(AssertUnwindSafe(|| {
+            case.kmeans.iter().map(|x| case.kmeans.iter().map(|y| layer.verif_emd(x, y)).collect()).collect()
+        }));
+        let real = catch(AssertUnwindSafe(|| layer.verif_metric()));
+        if let (Some(emds), Some(m)) = (emds, real) {
+            let mut op = format!("metric {} {kc}", street_no(case.street));
+            for r in &emds { for d in r { let _ = write!(op, " {}", d.to_bits()); } }
+            let es = m.verif_entries();
+            let mut ans = format!("{}", es.len());
+            for (p, d) in &es { let _ = write!(ans, " {} {}", i64::from(*p) as u64, fl(*d)); }
+            run.line(&op, &ans);
+            run.distinct(&op);
+            run.evaluations += (kc * kc) as u64;
+            run.spec_checked += 1;
+            let short = format!("{} metric over {kc} centroids", case.tag);
+            if es.len() != kc * (kc - 1) / 2 {
+                run.fail("metric-entry-count", &short, &format!("{} unordered pairs", kc * (kc - 1) / 2), &format!("{}", es.len()));
+            }
+            let raw = |i: usize, j: usize| (emds[i][j] as f64 + emds[j][i] as f64) / 2.0;
+            let mut mx = 0f64;
+            for i in 0..kc { for j in 0..i { mx = mx.max(raw(i, j)); } }
+            let mut seen_max = 0f32;
+            for i in 0..kc {
+                for j in 0..kc {
+                    if i == j { continue; }
+                    let (x, y) = (Abstraction::from((case.street, i)), Abstraction::from((case.street, j)));
+                    // read through the stored entries (Pref abstractions have no Metric::distance arm),
+                    // and through Metric::distance where the street has one
+                    let emap: BTreeMap<Pair, f32> = es.iter().cloned().collect();
+                    let mut dxy = emap.get(&Pair::from((&x, &y))).copied();
+                    let mut dyx = emap.get(&Pair::from((&y, &x))).copied();
+                    if case.street != Street::Pref {
+                        let via = catch(AssertUnwindSafe(|| (m.distance(&x, &y), m.distance(&y, &x))));
+                        match via {
+                            Some((p, q)) => {
+                                if Some(p.to_bits()) != dxy.map(f32::to_bits) {
+                                    run.fail("metric-distance-not-entry", &format!("{short} ({i},{j})"), &format!("{dxy:?}"), &format!("{p}"));
+                                }
+                                dxy = Some(p);
+                                dyx = Some(q);
+                            }
+                            None => { dxy = None; dyx = None; }
+                        }
+                    }
+                    match (dxy, dyx) {
+                        (Some(p), Some(q)) => {
+                            if p.to_bits() != q.to_bits() {
+                                run.fail("metric-asymmetric", &format!("{short} ({i},{j})"), &format!("{p}"), &format!("{q}"));
+                            }
+                            if !(p >= 0.0) {
+                                run.fail("metric-negative", &format!("{short} ({i},{j})"), ">= 0", &format!("{p}"));
+                            }
+                            let want = if mx > 0.0 { raw(i, j) / mx } else { 0.0 };
+                            if (p as f64 - want).abs() > 1e-5 {
+                                run.fail("metric-value", &format!("{short} ({i},{j})"), &format!("{want}"), &format!("{p}"));
+                            }
+                            seen_max = seen_max.max(p);
+                        }
+                        _ => run.fail("metric-missing-pair", &format!("{short} ({i},{j})"), "an entry", "missing"),
+                    }
+                }
+            }
+            if kc >= 2 && !((seen_max - 1.0).abs() < 1e-6 || (mx == 0.0 && seen_max == 0.0)) {
+                run.fail("metric-not-scaled-to-one", &short, "max 1 (or all 0)", &format!("{seen_max}"));
+            }
+            run.count("metric");
+        } else {
+            run.notes.push(format!("layer {}: metric/emd over centroids panics", case.tag));
+        }
+    }
+    real_next
+}
+
+/// a Vec<Histogram> buffer of capacity k at the same address as the previous step's centroid buffer
+/// (the allocator hands back the chunk the dropped Layer just freed; retried, verified, counted)
+fn stable_buffer(prev: Option<usize>, k: usize) -> (Vec<Histogram>, bool) {
+    let mut held: Vec<Vec<Histogram>> = vec![];
+    for _ in 0..64 {
+        let v: Vec<Histogram> = Vec::with_capacity(k);
+        let p = v.as_ptr() as usize;
+        if prev.map_or(true, |q| q == p) {
+            return (v, true);
+        }
+        held.push(v);
+    }
+    (Vec::with_capacity(k), false)
+}
+
+/// several consecutive k-means steps on one thread, the centroids of every step living at the SAME
+/// addresses as those of the step before, all with equal mass (46 samples per hand) and equal support
+/// size; the nearest-centroid oracle is recomputed from scratch in f64 at every step
+fn multistep_suite(run: &mut Run, rng: &mut Rng, deep: bool) {
+    let river: Vec<Abstraction> = (0..=100).map(|i| Abstraction::from((Street::Rive, i))).collect();
+    // a hand: 46 samples on exactly `s` distinct buckets inside a window
+    let hand = |rng: &mut Rng, lo: usize, width: usize, s: usize| -> Histogram {
+        let mut pool: Vec<usize> = (lo..(lo + width).min(101)).collect();
+        let mut sup = vec![];
+        for _ in 0..s { let i = rng.below(pool.len() as u64) as usize; sup.push(pool.swap_remove(i)); }
+        let mut v: Vec<Abstraction> = sup.iter().map(|&b| river[b]).collect();
+        while v.len() < 46 { v.push(river[sup[rng.below(s as u64) as usize]]); }
+        Histogram::from(v)
+    };
+    let runs = if deep { 12 } else { 4 };
+    for r in 0..runs {
+        let lloyd = r % 2 == 1;
+        let kc = 3 + (r % 3);
+        let n = 24 + rng.below(30) as usize;
+        let s = 4 + rng.below(4) as usize;
+        let width = if lloyd { s + 2 } else { 30 };
+        let centers: Vec<usize> = (0..kc).map(|_| rng.below(if lloyd { 12 } else { 60 }) as usize).collect();
+        let points: Vec<Histogram> = (0..n).map(|_| {
+            let c = centers[rng.below(kc as u64) as usize] + rng.below(if lloyd { 3 } else { 10 }) as usize;
+            hand(rng, c, width, s)
+        }).collect();
+        let mut current: Vec<Histogram> = (0..kc).map(|_| points[rng.below(n as u64) as usize].clone()).collect();
+        let mut prev_ptr: Option<usize> = None;
+        let mut alive: Option<Layer> = None;
+        let steps = if deep { 8 } else { 5 };
+        for t in 0..steps {
+            let items = current.clone();
+            drop(alive.take()); // frees the previous step's centroid buffer ...
+            let (mut buf, reused) = stable_buffer(prev_ptr, kc); // ... which this step's centroids now occupy
+            for h in items { buf.push(h); }
+            prev_ptr = Some(buf.as_ptr() as usize);
+            run.count(if t == 0 { "multistep-first-step" } else if reused { "multistep-step-at-reused-addresses" } else { "multistep-step-at-new-addresses" });
+            let layer = Layer::verif_new(Street::Turn, Metric::default(), points.clone(), buf);
+            let case = Case {
+                street: Street::Turn, metric_raw: BTreeMap::new(), points: points.clone(), kmeans: current.clone(),
+                tag: format!("Turn+multistep-{}-run{r}-step{t}", if lloyd { "lloyd" } else { "reseed" }), vdist: true,
+            };
+            let next = exercise(run, &case, &layer);
+            alive = Some(layer);
+            current = if lloyd {
+                match next {
+                    Some(cs) if cs.iter().take(kc).all(|c| c.verif_mass() > 0) => cs.into_iter().take(kc).collect(),
+                    // an emptied cluster: re-seed it, as a practical k-means would
+                    Some(cs) => cs.into_iter().take(kc).map(|c| if c.verif_mass() > 0 { c } else { points[rng.below(n as u64) as usize].clone() }).collect(),
+                    None => break,
+                }
+            } else {
+                // same masses (46) and same support sizes (s), different hands
+                (0..kc).map(|_| points[rng.below(n as u64) as usize].clone()).collect()
+            };
+        }
+    }
 }
 
 fn main() {
@@ -206,232 +552,36 @@ fn main() {
             }
             tag.push_str("+too-many-centroids");
         }
-        cases.push(Case { street, metric_raw, points, kmeans, tag });
+        cases.push(Case { street, metric_raw, points, kmeans, tag, vdist: false });
     }
 
-    for case in &cases {
-        let layer = layer_of(case);
-        let (n, kc) = (case.points.len(), case.kmeans.len());
-        let k_alloc = case.street.k();
-        run.count(&format!("layer:{}", case.tag));
-        run.count(&format!("points={}", match n { 0..=29 => "10-29", 30..=99 => "30-99", 100..=249 => "100-249", _ => "250-500" }));
-        run.count(&format!("centroids={}", match kc { 1 => "1", 2 => "2", 3..=16 => "3-16", 17..=143 => "17-143", _ => "144+" }));
-        // ---- the real distances (hook verif_emd): rows[i][j] = emd(point i, centroid j)
-        let rows: Option<Vec<Vec<f32>>> = catch(AssertUnwindSafe(|| {
-            case.points.iter().map(|p| case.kmeans.iter().map(|c| layer.verif_emd(p, c)).collect()).collect()
-        }));
-        let rows = match rows {
-            Some(r) => r,
-            None => {
-                run.notes.push(format!("layer {} skipped: emd itself panics", case.tag));
-                continue;
-            }
-        };
-        run.evaluations += (n * kc) as u64;
-        // ---- neighborhood, point by point
-        let mut nbrs: Vec<Option<(usize, f32)>> = vec![];
-        for (i, p) in case.points.iter().enumerate() {
-            let got = catch(AssertUnwindSafe(|| layer.verif_neighborhood(p)));
-            let mut op = format!("nbr {kc}");
-            for d in &rows[i] { let _ = write!(op, " {}", d.to_bits()); }
-            let ans = match got { Some((k, d)) => format!("{k} {}", fl(d)), None => "panic".into() };
-            run.line(&op, &ans);
-            run.distinct(&op);
-            // oracle: first index attaining the minimum; NaN among >= 2 distances => failure outcome
-            run.spec_checked += 1;
-            let has_nan = rows[i].iter().any(|d| d.is_nan());
-            if has_nan && kc >= 2 {
-                if got.is_some() {
-                    run.fail("neighborhood-nan-not-rejected", &op, "panic (unordered distances)", &ans);
-                }
-            } else {
-                let mn = rows[i].iter().cloned().fold(f32::INFINITY, f32::min);
-                let first = rows[i].iter().position(|d| *d == mn || (kc == 1));
-                match (got, first) {
-                    (Some((k, d)), Some(f)) => {
-                        if k != f || (d.to_bits() != rows[i][f].to_bits() && !(d.is_nan() && rows[i][f].is_nan())) {
-                            run.fail("neighborhood-not-first-nearest", &format!("{} point {i}: distances {:?}", case.tag, rows[i]), &format!("index {f} at {}", rows[i][f]), &ans);
-                        }
-                    }
-                    _ => run.fail("neighborhood-panics", &op, "an index", &ans),
-                }
-            }
-            nbrs.push(got);
-        }
-        // ---- next
-        let real_next = catch(AssertUnwindSafe(|| layer.verif_next()));
-        let mut op = format!("next {} {kc} {n}", street_no(case.street));
-        for (i, p) in case.points.iter().enumerate() {
-            let _ = write!(op, " {}", hist_str(p));
-            for d in &rows[i] { let _ = write!(op, " {}", d.to_bits()); }
-        }
-        let ans = match &real_next {
-            None => "panic".to_string(),
-            Some(cs) => { let mut s = format!("ok {}", cs.len()); for c in cs { s.push_str(&hist_ans(c)); } s }
-        };
-        run.line(&op, &ans);
-        run.distinct(&op);
-        run.evaluations += 1;
-        run.spec_checked += 1;
-        let all_ok = nbrs.iter().all(|x| x.is_some());
-        let in_range = nbrs.iter().all(|x| x.map_or(true, |(k, _)| k < k_alloc));
-        match &real_next {
-            None => {
-                if all_ok && in_range {
-                    run.fail("next-panics", &format!("{} n={n} k={kc}", case.tag), "centroids", "panic");
-                }
-            }
-            Some(cs) => {
-                if !all_ok || !in_range {
-                    run.fail("next-accepts-failed-assignment", &format!("{} n={n} k={kc}", case.tag), "panic", "centroids");
-                } else {
-                    // expected: centroid j = exact union of the points whose first-nearest centroid is j
-                    let mut want: Vec<(usize, BTreeMap<Abstraction, usize>)> = vec![(0, BTreeMap::new()); k_alloc];
-                    for (i, p) in case.points.iter().enumerate() {
-                        let mn = rows[i].iter().cloned().fold(f32::INFINITY, f32::min);
-                        let f = rows[i].iter().position(|d| *d == mn || kc == 1).unwrap();
-                        want[f].0 += p.verif_mass();
-                        for (a, c) in p.verif_counts() { *want[f].1.entry(a).or_default() += c; }
-                    }
-                    let total: usize = cs.iter().map(|c| c.verif_mass()).sum();
-                    let total_pts: usize = case.points.iter().map(|p| p.verif_mass()).sum();
-                    if cs.len() != k_alloc {
-                        run.fail("next-centroid-count", &case.tag, &format!("{k_alloc}"), &format!("{}", cs.len()));
-                    }
-                    if total != total_pts {
-                        run.fail("next-mass-not-conserved", &case.tag, &format!("{total_pts}"), &format!("{total}"));
-                    }
-                    for (j, c) in cs.iter().enumerate() {
-                        let got: BTreeMap<Abstraction, usize> = c.verif_counts().into_iter().collect();
-                        if c.verif_mass() != want[j].0 || got != want[j].1 {
-                            run.fail("next-centroid-not-union-of-nearest-points", &format!("{} centroid {j}", case.tag), &format!("mass {}", want[j].0), &format!("mass {}", c.verif_mass()));
-                        }
-                        let s: usize = got.values().sum();
-                        if s != c.verif_mass() {
-                            run.fail("next-mass-not-sum-of-counts", &format!("{} centroid {j}", case.tag), &format!("{s}"), &format!("{}", c.verif_mass()));
-                        }
-                    }
-                }
-            }
-        }
-        // ---- lookup (Flop / Turn branch of Layer::lookup)
-        if case.street == Street::Flop || case.street == Street::Turn {
-            let real = catch(AssertUnwindSafe(|| BTreeMap::<Isomorphism, Abstraction>::from(layer.verif_lookup())));
-            let isos: Vec<Isomorphism> = IsomorphismIterator::from(case.street).take(n).collect();
-            let mut op = format!("lookup {} {kc} {n}", street_no(case.street));
-            for r in &rows { for d in r { let _ = write!(op, " {}", d.to_bits()); } }
-            let ans = match &real {
-                None => "panic".to_string(),
-                Some(map) => {
-                    let mut s = String::from("ok");
-                    for iso in &isos {
-                        match map.get(iso) { Some(ab) => { let _ = write!(s, " {}", code(ab)); } None => s.push_str(" missing") }
-                    }
-                    s
-                }
-            };
-            run.line(&op, &ans);
-            run.evaluations += 1;
-            run.spec_checked += 1;
-            match &real {
-                None => if all_ok { run.fail("lookup-panics", &case.tag, "a table", "panic"); },
-                Some(map) => {
-                    if !all_ok {
-                        run.fail("lookup-accepts-failed-assignment", &case.tag, "panic", "a table");
-                    } else {
-                        if map.len() != n {
-                            run.fail("lookup-size", &case.tag, &format!("{n} classes"), &format!("{}", map.len()));
-                        }
-                        for (i, iso) in isos.iter().enumerate() {
-                            let mn = rows[i].iter().cloned().fold(f32::INFINITY, f32::min);
-                            let f = rows[i].iter().position(|d| *d == mn || kc == 1).unwrap();
-                            let want = Abstraction::from((case.street, f));
-                            if map.get(iso) != Some(&want) {
-                                run.fail("lookup-not-nearest-centroid-of-ith-point", &format!("{} class {i} ({})", case.tag, iso.0), &format!("{want}"), &format!("{:?}", map.get(iso)));
-                            }
-                        }
-                    }
-                }
-            }
-            run.count("lookup");
-        }
-        // ---- derived metric over the centroids
-        let nonempty = case.kmeans.iter().all(|h| h.verif_mass() > 0);
-        let affordable = case.street == Street::Turn || kc <= 16;
-        if nonempty && affordable && kc <= k_alloc {
-            let emds: Option<Vec<Vec<f32>>> = catch(AssertUnwindSafe(|| {
-                case.kmeans.iter().map(|x| case.kmeans.iter().map(|y| layer.verif_emd(x, y)).collect()).collect()
-            }));
-            let real = catch(AssertUnwindSafe(|| layer.verif_metric()));
-            if let (Some(emds), Some(m)) = (emds, real) {
-                let mut op = format!("metric {} {kc}", street_no(case.street));
-                for r in &emds { for d in r { let _ = write!(op, " {}", d.to_bits()); } }
-                let es = m.verif_entries();
-                let mut ans = format!("{}", es.len());
-                for (p, d) in &es { let _ = write!(ans, " {} {}", i64::from(*p) as u64, fl(*d)); }
-                run.line(&op, &ans);
-                run.distinct(&op);
-                run.evaluations += (kc * kc) as u64;
-                run.spec_checked += 1;
-                let short = format!("{} metric over {kc} centroids", case.tag);
-                if es.len() != kc * (kc - 1) / 2 {
-                    run.fail("metric-entry-count", &short, &format!("{} unordered pairs", kc * (kc - 1) / 2), &format!("{}", es.len()));
-                }
-                let raw = |i: usize, j: usize| (emds[i][j] as f64 + emds[j][i] as f64) / 2.0;
-                let mut mx = 0f64;
-                for i in 0..kc { for j in 0..i { mx = mx.max(raw(i, j)); } }
-                let mut seen_max = 0f32;
-                for i in 0..kc {
-                    for j in 0..kc {
-                        if i == j { continue; }
-                        let (x, y) = (Abstraction::from((case.street, i)), Abstraction::from((case.street, j)));
-                        // read through the stored entries (Pref abstractions have no Metric::distance arm),
-                        // and through Metric::distance where the street has one
-                        let emap: BTreeMap<Pair, f32> = es.iter().cloned().collect();
-                        let mut dxy = emap.get(&Pair::from((&x, &y))).copied();
-                        let mut dyx = emap.get(&Pair::from((&y, &x))).copied();
-                        if case.street != Street::Pref {
-                            let via = catch(AssertUnwindSafe(|| (m.distance(&x, &y), m.distance(&y, &x))));
-                            match via {
-                                Some((p, q)) => {
-                                    if Some(p.to_bits()) != dxy.map(f32::to_bits) {
-                                        run.fail("metric-distance-not-entry", &format!("{short} ({i},{j})"), &format!("{dxy:?}"), &format!("{p}"));
-                                    }
-                                    dxy = Some(p);
-                                    dyx = Some(q);
-                                }
-                                None => { dxy = None; dyx = None; }
-                            }
-                        }
-                        match (dxy, dyx) {
-                            (Some(p), Some(q)) => {
-                                if p.to_bits() != q.to_bits() {
-                                    run.fail("metric-asymmetric", &format!("{short} ({i},{j})"), &format!("{p}"), &format!("{q}"));
-                                }
-                                if !(p >= 0.0) {
-                                    run.fail("metric-negative", &format!("{short} ({i},{j})"), ">= 0", &format!("{p}"));
-                                }
-                                let want = if mx > 0.0 { raw(i, j) / mx } else { 0.0 };
-                                if (p as f64 - want).abs() > 1e-5 {
-                                    run.fail("metric-value", &format!("{short} ({i},{j})"), &format!("{want}"), &format!("{p}"));
-                                }
-                                seen_max = seen_max.max(p);
-                            }
-                            _ => run.fail("metric-missing-pair", &format!("{short} ({i},{j})"), "an entry", "missing"),
-                        }
-                    }
-                }
-                if kc >= 2 && !((seen_max - 1.0).abs() < 1e-6 || (mx == 0.0 && seen_max == 0.0)) {
-                    run.fail("metric-not-scaled-to-one", &short, "max 1 (or all 0)", &format!("{seen_max}"));
-                }
-                run.count("metric");
-            } else {
-                run.notes.push(format!("layer {}: metric/emd over centroids panics", case.tag));
-            }
+
+    // ---- adversarial near-ties (<= 1 %): a point-mass point, a point-mass centroid at another bucket and
+    // a spread centroid between 1.00x and 1.01x of that distance, in both index orders
+    {
+        let pm = |b: usize, m: usize| Histogram::from(vec![river[b]; m]);
+        for (ti, &(a, gap, shift)) in [(0usize, 30usize, 6usize), (100, 40, 9), (50, 25, 5), (0, 100, 30), (10, 60, 20), (80, 20, 4)].iter().enumerate() {
+            let b = if a + gap <= 100 { a + gap } else { a - gap };
+            let far = if b > a { (b + shift).min(100) } else { b.saturating_sub(shift) };
+            // spread centroid: 45 of 46 samples at b, one a little further away from a
+            let mut v = vec![river[b]; 45];
+            v.push(river[far]);
+            let spread = Histogram::from(v);
+            let point_mass = pm(b, 46);
+            let other = gen_hist(&mut rng, &river, (a + 50) % 101, 5, 46);
+            let mut points = vec![pm(a, 46), pm(a, 1), pm(b, 46), spread.clone()];
+            for _ in 0..8 { let c = rng.below(101) as usize; points.push(gen_hist(&mut rng, &river, c, 6, 46)); }
+            let kmeans = if ti % 2 == 0 { vec![spread, point_mass, other] } else { vec![other, point_mass, spread] };
+            cases.push(Case { street: Street::Turn, metric_raw: BTreeMap::new(), points, kmeans, tag: "Turn+near-tie-point-mass".into(), vdist: true });
         }
     }
+    for case in &cases {
+        let layer = layer_of(case);
+        exercise(&mut run, case, &layer);
+    }
+    multistep_suite(&mut run, &mut rng, deep);
     run.rule = format!(
-        "{} synthetic layers: Turn (points = equity histograms over the 101 river buckets, emd = Equity::variation, 1..150 centroids incl. 144), Flop and Pref (points over 24 learned abstractions with a line metric, emd = Sinkhorn, 1..16 centroids); 10..500 points with duplicated points, duplicated centroids (ties), an empty centroid (NaN distance), more centroids than street.k(); per layer every point's neighborhood, one next(), lookup() (Flop/Turn, zipped with the real IsomorphismIterator) and metric(); pair keys of the real cluster counts 169/128/144 exhaustively. distinct = distinct op lines",
+        "multi-step runs on one thread (re-seeded and Lloyd, >= 5 steps, centroids of every step at the addresses of the step before, equal masses and support sizes) with the nearest-centroid oracle recomputed from scratch in f64 at every step; near-tie layers (point-mass point, point-mass centroid, spread centroid within 1 %); {} synthetic layers: Turn (points = equity histograms over the 101 river buckets, emd = Equity::variation, 1..150 centroids incl. 144), Flop and Pref (points over 24 learned abstractions with a line metric, emd = Sinkhorn, 1..16 centroids); 10..500 points with duplicated points, duplicated centroids (ties), an empty centroid (NaN distance), more centroids than street.k(); per layer every point's neighborhood, one next(), lookup() (Flop/Turn, zipped with the real IsomorphismIterator) and metric(); pair keys of the real cluster counts 169/128/144 exhaustively. distinct = distinct op lines",
         cases.len());
     run.finish();
 }
